@@ -6,6 +6,7 @@ package report
 
 import (
 	"fmt"
+	"math/rand"
 	"os"
 	"reflect"
 	"strings"
@@ -163,7 +164,58 @@ func TestVerifC37Bounded(t *testing.T) {
 		}
 	}
 	assign(0, nil)
-	rule := "structured exhaustive scope: every span (start<=end<=len, incl. empty spans at end of file) of each text; every level x tag x inFile x notes/help/debug list shape; every edit list of the corpus in every order x primary x pageBreak; every assignment of files to the annotations of two diagnostics; distinct = distinct reports by their full field dump"
+	// 5. seeded random reports: 1..4 files (empty, ASCII, multi-byte, multi-line texts), 0..4
+	// diagnostics with random scalar fields and 0..3 annotations with any span inside the file
+	rnd := rand.New(rand.NewSource(37))
+	pool := []string{"", "m", "a message", "é€\U0001F600", "line1\nline2", "tab\tq\"uote", strings.Repeat("long ", 40)}
+	txts := []string{"", "x", "ab", "abc\nde\n", "é\n€", "syntax = \"proto3\";\nmessage M {}\n", "\n\n"}
+	pick := func() string { return pool[rnd.Intn(len(pool))] }
+	list := func() []string {
+		var l []string
+		for n := rnd.Intn(3); n > 0; n-- {
+			l = append(l, pick())
+		}
+		return l
+	}
+	nrand := 1500
+	if thorough {
+		nrand = 40000
+	}
+	for i := 0; i < nrand; i++ {
+		nf := 1 + rnd.Intn(4)
+		var fs []*source.File
+		for f := 0; f < nf; f++ {
+			fs = append(fs, source.NewFile(fmt.Sprintf("r%d.proto", f), txts[rnd.Intn(len(txts))]))
+		}
+		var ds []c37diag
+		for n := rnd.Intn(5); n > 0; n-- {
+			d := c37diag{level: levels[rnd.Intn(len(levels))], msg: pool[1+rnd.Intn(len(pool)-1)], // a diagnostic must have a message (documented; the decoder rejects one without)
+				tag: pool[rnd.Intn(3)], notes: list(), help: list(), debug: list()}
+			if rnd.Intn(4) == 0 {
+				d.inFile = "in.proto"
+			}
+			primaryAt := rnd.Intn(3)
+			for k, ns := 0, rnd.Intn(4); k < ns; k++ {
+				fi := rnd.Intn(nf)
+				l := len(fs[fi].Text())
+				a := rnd.Intn(l + 1)
+				b := a + rnd.Intn(l-a+1)
+				if rnd.Intn(5) == 0 {
+					a, b = l, l // empty span at the end of the file
+				}
+				sn := c37snip{file: fi, start: a, end: b, msg: pick(), primary: k == primaryAt, pageBreak: rnd.Intn(4) == 0}
+				for ne := rnd.Intn(3); ne > 0 && rnd.Intn(3) == 0; ne-- {
+					x := rnd.Intn(b - a + 1)
+					y := x + rnd.Intn(b-a-x+1)
+					sn.edits = append(sn.edits, Edit{Start: x, End: y, Replace: pool[rnd.Intn(3)]})
+				}
+				d.snips = append(d.snips, sn)
+			}
+			ds = append(ds, d)
+		}
+		check("random", fs, ds)
+	}
+	rule := "structured exhaustive scope plus seeded random reports (1..4 files, 0..4 diagnostics, 0..3 annotations with any span inside their file, random scalar fields and edit lists): every span (start<=end<=len, incl. empty spans at end of file) of each text; every level x tag x inFile x notes/help/debug list shape; every edit list of the corpus in every order x primary x pageBreak; every assignment of files to the annotations of two diagnostics; distinct = distinct reports by their full field dump"
 	ss := make([]string, 0, 3)
 	for _, s := range samples {
 		ss = append(ss, fmt.Sprintf("%q", s))
